@@ -1084,7 +1084,8 @@ fn judge(case: &Case, out: &CaseOut, limit: usize, max_refs: usize, checks: &mut
                 } else {
                     format!("read_path_changes_bundle:{label}")
                 };
-                v.push((ai, class, format!("anchor {:?}: caches as found => {}   {label} => {}", c.anchor, short(&c.baseline.canon()), short(&o.canon()))));
+                let show = |o: &Out| if case.big { brief(o) } else { short(&o.canon()) };
+                v.push((ai, class, format!("anchor {:?}: caches as found => {}   {label} => {}", c.anchor, show(&c.baseline), show(o))));
             }
         }
         // (b) against the re-computation from truth
@@ -1092,7 +1093,8 @@ fn judge(case: &Case, out: &CaseOut, limit: usize, max_refs: usize, checks: &mut
         let got = view_of(&c.baseline);
         if got != c.spec {
             let class = s9_class(&out.abs, &out.runs, &c.anchor_id, &c.baseline, limit, max_refs, "bundle_differs_from_truth_recomputation");
-            v.push((ai, class, format!("anchor {:?}: implementation => {}   recomputed from truth => {}", c.anchor, short(&got.map(|x| x.to_string()).unwrap_or("error".into())), short(&c.spec.as_ref().map(|x| x.to_string()).unwrap_or("error".into())))));
+            let show = |x: &Option<Value>| if case.big { x.as_ref().map(brief_view).unwrap_or("error".into()) } else { short(&x.as_ref().map(|x| x.to_string()).unwrap_or("error".into())) };
+            v.push((ai, class, format!("anchor {:?}: implementation => {}   recomputed from truth => {}", c.anchor, show(&got), show(&c.spec))));
         }
         // (c) frames appended after the cut
         let lb = &out.later_baselines[ai];
@@ -1165,6 +1167,11 @@ fn brief(o: &Out) -> String {
         }
         other => other.canon(),
     }
+}
+/// the same for a `view_of` / `spec_bundle` value
+fn brief_view(v: &Value) -> String {
+    let items: Vec<String> = v["items"].as_array().map(|x| x.iter().map(|i| if i["type"] == "summary_ref" { "s".to_string() } else if i["role"] == "user" { format!("u{}", i["thread_seq"]) } else { "a".to_string() }).collect()).unwrap_or_default();
+    format!("from_seq={} strategy={} checkpoints={} items=[{}]", v["from_seq"], v["strategy"].as_str().unwrap_or("?"), v["checkpoints"].as_array().map(|x| x.len()).unwrap_or(0), items.join(","))
 }
 fn short(s: &str) -> String {
     if s.len() > 400 {
@@ -1392,8 +1399,11 @@ fn main() {
     let mut w = CaseWriter::new(&a.out, "Model.Compile Gen.CompileConsts", "(check_case gen_recent_limit gen_max_refs gen_ckpt_frame_rule)", "(model_obs gen_recent_limit gen_max_refs gen_ckpt_frame_rule)", 40);
     let mut distinct = Distinct::default();
     let mut seen_classes: BTreeMap<String, u64> = BTreeMap::new();
+    let mut wall_ms: BTreeMap<&str, u128> = BTreeMap::new();
     for (ci, case) in cases.iter().enumerate() {
+        let t_case = std::time::Instant::now();
         let out = run_case(case, limit, max_refs);
+        *wall_ms.entry(if case.sweep != 0 { "sweep" } else if case.big { "big" } else { "other" }).or_insert(0u128) += t_case.elapsed().as_millis();
         res.evaluations += 1;
         res.bump_by("op_errors", out.op_errors);
         let nck = out.abs.truth.iter().filter(|e| matches!(e.kind, EventKind::ContinuityCompactionCheckpointCreated { .. })).count();
@@ -1401,6 +1411,10 @@ fn main() {
         let nre = out.abs.truth.iter().filter(|e| matches!(e.kind, EventKind::ContinuityRunEnded { .. })).count();
         res.bump(&format!("checkpoints={}", match nck { 0 => "0", 1 => "1", 2..=4 => "2-4", _ => "5+" }));
         res.bump(&format!("messages={}", match nmsg { 0..=3 => "0-3", 4..=15 => "4-15", 16 => "16", 17..=20 => "17-20", _ => "21+" }));
+        if case.sweep != 0 {
+            res.bump("window_sweep_threads");
+            res.bump_by("window_sweep_anchors", case.anchors.len() as u64);
+        }
         res.bump(&format!("frames={}", match out.abs.truth.len() { 0..=9 => "1-9", 10..=29 => "10-29", 30..=79 => "30-79", _ => "80+" }));
         if (nck > 0 || nre > 0 || nmsg > limit) && distinct.add(&serde_json::to_string(case).unwrap()) {}
         if res.samples.len() < 2 && nck > 0 && case.ops.len() < 14 {
@@ -1519,6 +1533,7 @@ fn main() {
     }
     res.distinct_nontrivial = distinct.count();
     res.case_files = w.files.iter().map(|p| p.display().to_string()).collect();
+    res.notes.push(format!("wall ms of the implementation runs by kind of history: {wall_ms:?}"));
     res.notes.push(format!("limits read from the source: recent_messages_v1_limit={limit} hierarchical_summaries_v1_max_refs={max_refs}"));
     res.write(&a.out);
     println!("c08: {} histories, {} oracle checks, {} model cases, {} oracle violations {:?}", res.evaluations, res.oracle_checks, w.total, res.oracle_violations.len(), seen_classes);
